@@ -482,7 +482,7 @@ fn load_db_metadata_from_disk_or_empty(name: String, dbs: &Arc<Databases>) -> Da
 
         DatabaseMataData::new(id, ConsensuStrategy::from(consensus_strategy))
     } else {
-        DatabaseMataData::new(dbs.map.read().unwrap().len(), ConsensuStrategy::Newer)
+        DatabaseMataData::new(dbs.next_database_id(), ConsensuStrategy::Newer)
     }
 }
 
